@@ -23,3 +23,6 @@ add('C09','model_checking','explicit-state BFS over write/commit/open-historical
 add('C10','model_checking','explicit-state BFS + long-chain enumeration, pairwise differential cache-on vs cache-off node on the same DB',
  'Every read at every committed height on a cache-enabled live node equals the same read on a cache-disabled node opened on a byte copy of the DB, in every reachable state up to the depth and along 108 15-block chains that recycle cache slots.',
  'Bounded alphabet; compares all heights rather than only those served from the cache.')
+add('C05','model_checking','exhaustive enumeration of trees x versions x keys x single-field proof mutations (and forged-leaf constructions) against the real query/verify code',
+ 'Completeness: every proof the store returns for every key of every enumerated tree/version verifies. Soundness: every enumerated alteration of key, value, claim, root, op envelope, multistore proof and IAVL range proof must fail; accepted alterations are classified as false-statement or malleable.',
+ 'Soundness is over the enumerated mutation alphabet (single-field edits + known forgery constructions), not over all byte strings.')
